@@ -10,16 +10,16 @@
 # Oracle (a ten-line model of the documented rule): effective value == value of the first layer in
 #   flag > environment overlay > selected profile > parent > grandparent ... > built-in default
 # that sets it; a cyclic / missing profile on the selected chain => non-zero exit naming E_CONFIG_PROFILE, in finite time.
-import json, os, shutil, socket, subprocess, sys, tempfile, time
+import json, os, re, shutil, socket, subprocess, sys, tempfile, time
 
 sys.path.insert(0, os.path.dirname(os.path.abspath(__file__)))
 import cli_common as cc
 
 PID = 'C32'
 SIG_ENV_MIXED = 'C32:env-flat-section-drops-overrides'
-RULE = ('Hypothesis case -> for each of 17 settings (default/min/max TTL in disjoint ranges so sanitisation is the identity, control host, control port, transport port, control token, '
+RULE = ('Hypothesis case -> for each of 19 settings (the CLI-side fetch directory and use-stored-names switch, read back from `eph defaults`; default/min/max TTL in disjoint ranges so sanitisation is the identity, control host, control port, transport port, control token, '
         'announce PoW, storage dir, persistence, fetch/upload parallelism, key rotation, announce interval/burst/window, control stream cap) the subset of layers that set it '
-        '{flag, environment overlay, selected profile, ancestors 1..4}, all with distinct values; profile graph: extends chain of depth 1..5 plus decoy profiles, error graphs {self cycle, '
+        '{flag, environment overlay, selected profile, ancestors 1..4}, all with distinct values (numeric ones: in half of the cases the winning layer carries the lower / upper bound of the range, e.g. --announce-pow 0); layers that do not set a nested setting may carry an unrelated key in the same nested object; profile graph: extends chain of depth 1..5 plus decoy profiles, error graphs {self cycle, '
         'back edge, missing parent, missing selected profile via --profile / environment / absent default, cycle among unused profiles}; selection by --profile, environment `profile:` '
         '(and --profile overriding it) or implicit default; overlay as flat keys, `overrides:` or both; YAML (two-space subset, quoted/plain scalars) or JSON; one key alias per setting '
         'per case; duration flags spelled 7200|7200s|120m|2h; flags before or after the command. Oracle: DEFAULTS/STATUS/token probes of the started daemon == first layer that sets the '
@@ -44,11 +44,14 @@ SETTINGS = [
     ('announce_interval', '--announce-interval', 'ANNOUNCE_INTERVAL', [['announce', 'min_interval'], ['node', 'announce_min_interval']], ('dur', 1, 60), '15'),
     ('announce_burst', '--announce-burst', 'ANNOUNCE_BURST', [['announce', 'burst_limit'], ['node', 'announce_burst_limit']], ('int', 1, 100), '4'),
     ('announce_window', '--announce-window', 'ANNOUNCE_WINDOW', [['announce', 'burst_window'], ['node', 'announce_burst_window']], ('dur', 120, 3600), '120'),
+    # CLI-side settings of the same layering (read back from the text `eph ... defaults` prints, not from the daemon)
+    ('fetch_dir', '--fetch-default-dir', 'CLI:Output directory', [['cli', 'fetch', 'default_directory'], ['cli', 'fetch', 'default-directory'], ['fetch', 'default_directory'], ['fetch', 'default-directory']], ('dir',), '{CWD}'),
+    ('use_names', None, 'CLI:Use stored names', [['cli', 'fetch', 'use_manifest_name'], ['cli', 'fetch', 'use-manifest-name']], ('bool',), '1'),
     ('stream_max', '--max-store-bytes', 'CONTROL_STREAM_MAX', [['control', 'stream_max_bytes'], ['control', 'max_stream_bytes'], ['control', 'max_store_bytes']], ('int', 1024, 2 ** 31), '33554432'),
 ]
 SID = [s[0] for s in SETTINGS]
 LAYERS = ['flag', 'env', 'p0', 'p1', 'p2', 'p3', 'p4']
-ERRORS = [None, None, None, None, None, None, 'cycle_self', 'cycle_back', 'missing_parent', 'missing_selected_flag', 'missing_selected_env', 'no_default', 'unused_cycle']
+ERRORS = [None] * 18 + ['cycle_self', 'cycle_back', 'missing_parent', 'missing_selected_flag', 'missing_selected_env', 'no_default', 'unused_cycle']
 STATE = {}
 
 
@@ -118,7 +121,7 @@ def value_for(sid, kind, base, k, ctx_ports, case_dir):
         h = cc.expand((sid, base, k), n, b'tok')
         return 't' + ''.join(alphabet[b % len(alphabet)] for b in h) + str(k)
     if t == 'dir':
-        return os.path.join(case_dir, 'st', 'store_%d_%d' % (base % 1000, k))
+        return os.path.join(case_dir, 'st', '%s_%d_%d' % ('inbox' if sid == 'fetch_dir' else 'store', base % 1000, k))
     if t == 'bool':
         return '1' if (base + k) % 2 == 0 else '0'
     raise ValueError(t)
@@ -213,6 +216,10 @@ def fields_of(raw):
 
 
 def run_case(ctx, case):
+    # (replay files written before a setting was added: the missing setting is simply set nowhere)
+    missing = [sid for sid in SID if sid not in case['settings']]
+    if missing:
+        case = dict(case, settings=dict(case['settings'], **{sid: {'layers': [], 'alias': 0, 'base': 1, 'spell': 0, 'env_flat': False} for sid in missing}))
     case_dir = tempfile.mkdtemp(prefix='case_', dir=STATE['tmp'])
     os.makedirs(os.path.join(case_dir, 'st'))
     try:
@@ -259,9 +266,20 @@ def _run(ctx, case, case_dir):
         layers = [l for l in spec['layers'] if l in active_layers]
         if kind[0] == 'port' and not layers:
             layers = [active_layers[spec['base'] % len(active_layers)]]      # never fall back to the well-known default ports
+        base_eff = spec['base']
+        if kind[0] in ('dur', 'int') and layers:
+            lo, hi = kind[1], kind[2]
+            span = hi - lo + 1
+            step = (span // 8 or 1) if span >= 8 else 1
+            kmin = min(LAYERS.index(l) for l in layers if l in order) if any(l in order for l in layers) else 0
+            mode = (spec['base'] >> 10) % 4
+            if mode == 0:
+                base_eff = (-kmin * step) % span                 # the winning layer carries the lower bound (e.g. --announce-pow 0)
+            elif mode == 1:
+                base_eff = (span - 1 - kmin * step) % span       # ... the upper bound
         for l in layers:
             k = LAYERS.index(l)
-            v = value_for(sid, kind, spec['base'], k, take_port, case_dir)
+            v = value_for(sid, kind, base_eff, k, take_port, case_dir)
             layer_values[l][sid] = v
             if kind[0] == 'port':
                 port_names[v] = '<%s.%s>' % (l, sid)
@@ -278,24 +296,35 @@ def _run(ctx, case, case_dir):
     # ---- the model: first layer in precedence order that sets the setting
     expected, winner = {}, {}
     for sid, flag, dkey, aliases, kind, default in SETTINGS:
-        expected[sid], winner[sid] = default, 'built-in'
+        expected[sid], winner[sid] = (case_dir if default == '{CWD}' else default), 'built-in'
         for l in order:
             if sid in layer_values[l]:
                 expected[sid], winner[sid] = layer_values[l][sid], l
                 break
 
     # ---- configuration file
-    def profile_tree(vals):
+    def add_siblings(tree, vals, salt):
+        """a layer that does not set a nested setting (node.fetch.max_parallel, cli.fetch.*) may still carry an unrelated key in the
+        same nested object; unknown keys are ignored by the loader, so the model is unchanged"""
+        for sid, flag, dkey, aliases, kind, default in SETTINGS:
+            spec = case['settings'][sid]
+            path = aliases[spec['alias'] % len(aliases)]
+            if len(path) >= 3 and sid not in vals and ((spec['base'] >> 4) + salt) % 3 == 0:
+                put(tree, path[:-1] + ['note'], Lit('"tuned %d"' % salt, 'tuned %d' % salt))
+                ctx.label('unknown_sibling_key_in_nested_object')
+
+    def profile_tree(vals, salt=0):
         tree = {}
         for sid, flag, dkey, aliases, kind, default in SETTINGS:
             if sid in vals:
                 spec = case['settings'][sid]
                 put(tree, aliases[spec['alias'] % len(aliases)], file_scalar(kind, vals[sid], case['quote'] + spec['spell']))
+        add_siblings(tree, vals, salt)
         return tree
 
     profiles = {}
     for i, name in enumerate(names):
-        tree = profile_tree(layer_values['p%d' % i])
+        tree = profile_tree(layer_values['p%d' % i], i + 1)
         if i + 1 < len(names):
             tree['extends'] = Lit(names[i + 1], names[i + 1])
         profiles[name] = tree
@@ -335,6 +364,7 @@ def _run(ctx, case, case_dir):
                 style = case['env_style']
                 dest = ov if style == 'overrides' or (style == 'mixed' and not spec['env_flat']) else flat
                 put(dest, aliases[spec['alias'] % len(aliases)], file_scalar(kind, layer_values['env'][sid], case['quote'] + spec['spell'] + 1))
+        add_siblings(ov if case['env_style'] != 'flat' else flat, layer_values['env'], 7)
         # known finding: a flat section that sorts after "overrides" replaces (instead of merging into) the same section under overrides:
         clash = sorted(k for k in flat if k in ov and isinstance(flat[k], dict) and isinstance(ov[k], dict) and k > 'overrides')
         if clash:
@@ -371,6 +401,8 @@ def _run(ctx, case, case_dir):
         spec = case['settings'][sid]
         if sid == 'persistent':
             item = ['--persistent' if v == '1' else '--no-persistent']
+        elif sid == 'use_names':
+            item = ['--fetch-use-manifest-name' if v == '1' else '--fetch-ignore-manifest-name']
         elif kind[0] == 'dur':
             item = [flag, spell_duration(v, spec['spell'])]
         else:
@@ -496,9 +528,20 @@ def _run(ctx, case, case_dir):
                 src.append('built-in default')
             return 'the value of ' + '/'.join(src) if src else 'no layer\'s value'
 
+        # CLI-side settings: what `eph <same layers> defaults` prints about itself
+        if any(sid in layer_values[l] for l in LAYERS for sid in ('fetch_dir', 'use_names')) or (case['settings']['fetch_dir']['base'] & 3) == 0:
+            cli = cc.run_cli(before + ['defaults'] + after, cwd=case_dir, timeout=40)
+            m1 = re.search(r'^\s*Output directory:\s+(.*)$', cli['out'], re.M)
+            m2 = re.search(r'^\s*Use stored names:\s+(enabled|disabled)\s*$', cli['out'], re.M)
+            if cli['hung'] or not m1 or not m2:
+                ctx.label('cli_defaults_inconclusive')
+            else:
+                got['CLI:Output directory'] = m1.group(1).strip()
+                got['CLI:Use stored names'] = '1' if m2.group(1) == 'enabled' else '0'
+                ctx.label('cli_defaults_read')
         mismatches = []
         for sid, flag, dkey, aliases, kind, default in SETTINGS:
-            if dkey is None:
+            if dkey is None or (dkey.startswith('CLI:') and dkey not in got):
                 continue
             actual = got.get(dkey)
             want = expected[sid]
